@@ -178,64 +178,37 @@ vk_bytes_to!(vk_int_bytes_to_small_sle_neg, vk_int_bytes_to_large3_sle_neg, 2, t
 vk_bytes_to!(vk_int_bytes_to_small_sbe_pos, vk_int_bytes_to_large3_sbe_pos, 3, false);
 vk_bytes_to!(vk_int_bytes_to_small_sbe_neg, vk_int_bytes_to_large3_sbe_neg, 3, true);
 
-// be == reversed le (signed forms, which contain the unsigned ones as their first step)
-#[cfg_attr(kani, kani::proof)]
-#[cfg_attr(not(kani), test)]
-#[cfg_attr(kani, kani::unwind(34))]
-fn vk_int_bytes_be_is_reversed_le_small() {
-    let x: DoubleWord = any();
-    let neg: bool = any();
-    assume(!(neg && x == 0));
-    let (a, alen) = vk_copy(&RefSmall(x).to_signed_le_bytes(neg));
-    let (b, blen) = vk_copy(&RefSmall(x).to_signed_be_bytes(neg));
-    assert!(vk_is_reverse(&a, alen, &b, blen));
-    cover();
-}
-
-#[cfg_attr(kani, kani::proof)]
-#[cfg_attr(not(kani), test)]
-#[cfg_attr(kani, kani::unwind(34))]
-fn vk_int_bytes_be_is_reversed_le_large3() {
-    let w: [Word; 3] = any();
-    let neg: bool = any();
-    assume(w[2] != 0);
-    let (a, alen) = vk_copy(&RefLarge(&w).to_signed_le_bytes(neg));
-    let (b, blen) = vk_copy(&RefLarge(&w).to_signed_be_bytes(neg));
-    assert!(vk_is_reverse(&a, alen, &b, blen));
-    cover();
-}
-
-// the slice-level kernels with FLIP = true on a slice whose top word may be ZERO (magnitude - 1 after a borrow out of
-// the top word): complemented bytes of all lower words, nothing for the top word
-#[cfg_attr(kani, kani::proof)]
-#[cfg_attr(not(kani), test)]
-#[cfg_attr(kani, kani::unwind(34))]
-fn vk_int_bytes_words_kernels_flip() {
-    let w: [Word; 3] = any();
-    let n: usize = any();
-    assume(n >= 1 && n <= 3);
-    let be: bool = any();
-    let words = &w[..n];
-    let v = if be { words_to_be_bytes::<true>(words) } else { words_to_le_bytes::<true>(words) };
-    let (a, len) = vk_copy(&v);
-    // number of bytes: all of the lower words, the top word without its leading zero bytes
-    assert!(len == 8 * n - (w[n - 1].leading_zeros() as usize) / 8);
-    // the bytes are those of the complemented words (image of the unsigned string = !w, cut to len bytes)
-    let img = vk_bytes_image(&a, len, be, false);
-    let mut i = 0;
-    while i < 3 {
-        if 8 * (i + 1) <= len {
-            assert!(img[i] == !w[i]);
-        } else if 8 * i < len {
-            let keep = (1u64 << (8 * (len - 8 * i))) - 1;
-            assert!(img[i] == !w[i] & keep);
-        } else {
-            assert!(img[i] == 0);
+// be == reversed le (signed forms, which contain the unsigned ones as their first step); the sign is a literal per
+// harness (two Vecs of symbolic length under a symbolic sign exhaust CBMC's memory)
+macro_rules! vk_bytes_rev {
+    ($small:ident, $large:ident, $neg:expr) => {
+        #[cfg_attr(kani, kani::proof)]
+        #[cfg_attr(not(kani), test)]
+        #[cfg_attr(kani, kani::unwind(34))]
+        fn $small() {
+            let x: DoubleWord = any();
+            assume(!($neg && x == 0));
+            let (a, alen) = vk_copy(&RefSmall(x).to_signed_le_bytes($neg));
+            let (b, blen) = vk_copy(&RefSmall(x).to_signed_be_bytes($neg));
+            assert!(vk_is_reverse(&a, alen, &b, blen));
+            cover();
         }
-        i += 1;
-    }
-    cover();
+
+        #[cfg_attr(kani, kani::proof)]
+        #[cfg_attr(not(kani), test)]
+        #[cfg_attr(kani, kani::unwind(34))]
+        fn $large() {
+            let w: [Word; 3] = any();
+            assume(w[2] != 0);
+            let (a, alen) = vk_copy(&RefLarge(&w).to_signed_le_bytes($neg));
+            let (b, blen) = vk_copy(&RefLarge(&w).to_signed_be_bytes($neg));
+            assert!(vk_is_reverse(&a, alen, &b, blen));
+            cover();
+        }
+    };
 }
+vk_bytes_rev!(vk_int_bytes_rev_small_pos, vk_int_bytes_rev_large3_pos, false);
+vk_bytes_rev!(vk_int_bytes_rev_small_neg, vk_int_bytes_rev_large3_neg, true);
 
 // ---------------------------------------------------------------------------------------------------------------
 // (B) bytes -> value on ARBITRARY byte strings (not only those the library prints: non-minimal encodings, leading
@@ -255,6 +228,8 @@ fn vk_check_from_bytes(a: &[u8; VK_N], len: usize, which: u8) {
     assert!(vk_img_eq(vk_sign_mag_image(n, m), vk_bytes_image(a, len, which == 1 || which == 3, which >= 2)));
 }
 
+// Every length is a LITERAL inside the harness (a loop over concrete lengths): a symbolic length gives symbolic
+// allocation sizes and symbolic copy offsets (`bytes[N - len..].copy_from_slice`, the known CBMC problem).
 macro_rules! vk_bytes_from {
     ($name:ident, $lo:expr, $hi:expr, $which:expr) => {
         #[cfg_attr(kani, kani::proof)]
@@ -262,49 +237,30 @@ macro_rules! vk_bytes_from {
         #[cfg_attr(kani, kani::unwind(34))]
         fn $name() {
             let a: [u8; VK_N] = any();
-            let len: usize = any();
-            assume(len >= $lo && len <= $hi);
-            vk_check_from_bytes(&a, len, $which);
+            let mut len = $lo;
+            while len <= $hi {
+                vk_check_from_bytes(&a, len, $which);
+                len += 1;
+            }
             cover();
         }
     };
 }
-// fast path (dword_from_*_bytes_partial)
+// fast path (dword_from_*_bytes_partial): lengths 0..=16
 vk_bytes_from!(vk_int_bytes_from_le_0_16, 0, 16, 0);
 vk_bytes_from!(vk_int_bytes_from_be_0_16, 0, 16, 1);
 vk_bytes_from!(vk_int_bytes_from_sle_0_16, 0, 16, 2);
 vk_bytes_from!(vk_int_bytes_from_sbe_0_16, 0, 16, 3);
-// from_*_bytes_large: one harness per concrete length (concrete allocation sizes)
-vk_bytes_from!(vk_int_bytes_from_le_17, 17, 17, 0);
-vk_bytes_from!(vk_int_bytes_from_be_17, 17, 17, 1);
-vk_bytes_from!(vk_int_bytes_from_sle_17, 17, 17, 2);
-vk_bytes_from!(vk_int_bytes_from_sbe_17, 17, 17, 3);
-vk_bytes_from!(vk_int_bytes_from_le_20, 20, 20, 0);
-vk_bytes_from!(vk_int_bytes_from_be_20, 20, 20, 1);
-vk_bytes_from!(vk_int_bytes_from_sle_20, 20, 20, 2);
-vk_bytes_from!(vk_int_bytes_from_sbe_20, 20, 20, 3);
-vk_bytes_from!(vk_int_bytes_from_le_24, 24, 24, 0);
-vk_bytes_from!(vk_int_bytes_from_be_24, 24, 24, 1);
-vk_bytes_from!(vk_int_bytes_from_sle_24, 24, 24, 2);
-vk_bytes_from!(vk_int_bytes_from_sbe_24, 24, 24, 3);
-vk_bytes_from!(vk_int_bytes_from_le_25, 25, 25, 0);
-vk_bytes_from!(vk_int_bytes_from_be_25, 25, 25, 1);
-vk_bytes_from!(vk_int_bytes_from_sle_25, 25, 25, 2);
-vk_bytes_from!(vk_int_bytes_from_sbe_25, 25, 25, 3);
-// the remaining lengths with a symbolic length (symbolic allocation size: thorough tier)
-vk_bytes_from!(vk_int_bytes_from_le_18_23, 18, 23, 0);
-vk_bytes_from!(vk_int_bytes_from_be_18_23, 18, 23, 1);
-vk_bytes_from!(vk_int_bytes_from_sle_18_23, 18, 23, 2);
-vk_bytes_from!(vk_int_bytes_from_sbe_18_23, 18, 23, 3);
+// from_*_bytes_large: lengths 17..=25 (3 words, 3 words + partial word, 4 words incl. the sign byte)
+vk_bytes_from!(vk_int_bytes_from_le_17_25, 17, 25, 0);
+vk_bytes_from!(vk_int_bytes_from_be_17_25, 17, 25, 1);
+vk_bytes_from!(vk_int_bytes_from_sle_17_25, 17, 25, 2);
+vk_bytes_from!(vk_int_bytes_from_sbe_17_25, 17, 25, 3);
 
 // ---------------------------------------------------------------------------------------------------------------
-// (C) the composition from(to(x)) executed on a concrete palette: every (sign, magnitude) with magnitude
-// 2^(8j) - 1, 2^(8j), 2^(8j) + 1 and 2^(8j + 7) for j = 0..=23 (the carries / borrows / sign bytes at every byte
-// boundary of 1..=3 words), through the signed and (for positive values) the unsigned codecs.
+// (C) the composition from(to(x)) executed on a small concrete palette (carries / borrows / sign bytes at word and
+// byte boundaries), through the signed and (for positive values) the unsigned codecs.
 fn vk_roundtrip_one(mag: [u64; 4], neg: bool) {
-    if mag[0] == 0 && mag[1] == 0 && mag[2] == 0 {
-        return;
-    }
     let w3 = [mag[0], mag[1], mag[2]];
     let x = if mag[2] != 0 {
         RefLarge(&w3)
@@ -323,50 +279,25 @@ fn vk_roundtrip_one(mag: [u64; 4], neg: bool) {
     }
 }
 
-fn vk_pow2_limbs(bit: usize) -> [u64; 4] {
-    let mut m = [0u64; 4];
-    m[bit / 64] = 1u64 << (bit % 64);
-    m
+#[cfg_attr(kani, kani::proof)]
+#[cfg_attr(not(kani), test)]
+#[cfg_attr(kani, kani::unwind(34))]
+fn vk_int_bytes_roundtrip_concrete_large() {
+    vk_roundtrip_one([0, 0, 1, 0], true); // -(2^128): magnitude - 1 loses its top word
+    vk_roundtrip_one([0, 0, 1 << 56, 0], true); // -(2^184)
+    vk_roundtrip_one([0, 0, 1 << 63, 0], false); // 2^191: needs a 0x00 sign byte
+    vk_roundtrip_one([u64::MAX, u64::MAX, u64::MAX, 0], true);
+    vk_roundtrip_one([1, 0, 0x80, 0], true);
+    cover();
 }
 
-macro_rules! vk_bytes_roundtrip {
-    ($name:ident, $lo:expr, $hi:expr) => {
-        #[cfg_attr(kani, kani::proof)]
-        #[cfg_attr(not(kani), test)]
-        #[cfg_attr(kani, kani::unwind(34))]
-        fn $name() {
-            let mut j = $lo;
-            while j < $hi {
-                let p = vk_pow2_limbs(8 * j);
-                // 2^(8j) - 1: all ones below bit 8j
-                let mut ones = [0u64; 4];
-                let mut k = 0;
-                while k < 4 {
-                    ones[k] = if 64 * (k + 1) <= 8 * j {
-                        u64::MAX
-                    } else if 64 * k < 8 * j {
-                        (1u64 << (8 * j - 64 * k)) - 1
-                    } else {
-                        0
-                    };
-                    k += 1;
-                }
-                let mut plus = p;
-                plus[0] |= 1;
-                let mut s = 0;
-                while s < 2 {
-                    vk_roundtrip_one(ones, s == 1);
-                    vk_roundtrip_one(p, s == 1);
-                    vk_roundtrip_one(plus, s == 1);
-                    vk_roundtrip_one(vk_pow2_limbs(8 * j + 7), s == 1);
-                    s += 1;
-                }
-                j += 1;
-            }
-            cover();
-        }
-    };
+#[cfg_attr(kani, kani::proof)]
+#[cfg_attr(not(kani), test)]
+#[cfg_attr(kani, kani::unwind(34))]
+fn vk_int_bytes_roundtrip_concrete_small() {
+    vk_roundtrip_one([0x80, 0, 0, 0], true); // -128
+    vk_roundtrip_one([0, 1, 0, 0], true); // -(2^64)
+    vk_roundtrip_one([u64::MAX, u64::MAX, 0, 0], false); // 2^128 - 1
+    vk_roundtrip_one([0, 1 << 63, 0, 0], true); // -(2^127)
+    cover();
 }
-vk_bytes_roundtrip!(vk_int_bytes_roundtrip_concrete_0_8, 0, 8);
-vk_bytes_roundtrip!(vk_int_bytes_roundtrip_concrete_8_16, 8, 16);
-vk_bytes_roundtrip!(vk_int_bytes_roundtrip_concrete_16_24, 16, 24);
